@@ -196,7 +196,7 @@ def same_name_nesting(items):
             open_.append(it["name"])
         elif it["k"] == "close" and it["name"] in open_:
             open_.remove(it["name"])
-        elif it["k"] == "closeall" or (it["k"] == "nomarkup" and it["close"] == "all"):
+        elif it["k"] == "closeall" or (it["k"] in ("nomarkup", "ropen") and it["close"] == "all"):
             open_ = []
     return False
 
@@ -245,7 +245,7 @@ def record_and_validate(ctx, cases_path, trace_name):
                 mx = max(mx, depth)
             elif it["k"] == "close":
                 depth -= 1
-            elif it["k"] == "closeall" or (it["k"] == "nomarkup" and it["close"] == "all"):
+            elif it["k"] == "closeall" or (it["k"] in ("nomarkup", "ropen") and it["close"] == "all"):
                 depth = 0
         return mx >= 2 and any(c > 127 for c in e["input"])
     direct = [e for e in events if e["via"] == "direct"]
